@@ -107,7 +107,7 @@ func vfValidate(cfg *SubscriberGroupsConfig) string {
 	var prev, name string
 	msg := verr.Error()
 	if strings.Contains(msg, "]: invalid ") {
-		// fixes/C14_validate_rejects_malformed.patch: subscriber-group %q vlans[%d]: invalid svlan|cvlan: ...
+		// subscriber-group %q vlans[%d]: invalid svlan|cvlan: ...   (/repo 461c9d7)
 		var which string
 		fmt.Sscanf(msg, "subscriber-group %q vlans[%d]: invalid %s", &name, &c, &which)
 		return fmt.Sprintf("malformed %s %d %s", vfEncode(name), c, strings.TrimSuffix(which, ":"))
